@@ -231,6 +231,20 @@ impl Scenario for MhStreams {
     }
 }
 
+/// per chain: its acceptance draws over all traced steps of the run (`hmc_u` carries one value per chain)
+fn acceptance_sequences(ev: &[mcmc_sim::trace::TraceEvent], nc: usize) -> Vec<Vec<u64>> {
+    let mut us: Vec<Vec<u64>> = vec![vec![]; nc];
+    for e in ev.iter().filter(|e| e.role == "hmc_u") {
+        for (c, v) in e.vals.iter().enumerate().take(nc) {
+            us[c].push(v.to_bits());
+        }
+    }
+    if us.iter().all(|u| u.is_empty()) {
+        return vec![];
+    }
+    us
+}
+
 struct GradStreams;
 impl Scenario for GradStreams {
     fn name(&self) -> &'static str {
@@ -326,10 +340,12 @@ impl Scenario for GradStreams {
                 }
                 let (bits, shape) = out;
                 traj = (0..shape[0]).map(|c| bits[c * shape[1] * shape[2]..(c + 1) * shape[1] * shape[2]].to_vec()).collect();
-                if let Some(u) = ev.iter().find(|e| e.role == "hmc_u") {
-                    let us: Vec<u64> = u.vals.iter().map(|v| v.to_bits()).collect();
+                {
+                    // the SEQUENCE of acceptance draws of every chain over the steps of the run (a single f32
+                    // uniform has only 2^24 values: two of 64 independent chains share one every few thousand runs)
+                    let us = acceptance_sequences(&ev, nc);
                     if let Some((i, j)) = first_pair_equal(&us) {
-                        o.violate("same_acceptance_stream", &format!("HMC[{how}]:chains-share-acceptance-draw"), format!("chains {i} and {j} received the same acceptance draw (dim {dim})"));
+                        o.violate("same_acceptance_stream", &format!("HMC[{how}]:chains-share-acceptance-draw"), format!("chains {i} and {j} received the same acceptance draws in every step (dim {dim})"));
                     }
                 }
                 o.count("probe_hmc_dim_ge_1024", (dim >= 1024) as u64);
@@ -357,11 +373,11 @@ impl Scenario for GradStreams {
                 }
                 let (bits, shape) = out;
                 traj = (0..shape[0]).map(|c| bits[c * shape[1] * shape[2]..(c + 1) * shape[1] * shape[2]].to_vec()).collect();
-                // acceptance draws of the first step: one per chain, pairwise distinct
-                if let Some(u) = ev.iter().find(|e| e.role == "hmc_u") {
-                    let us: Vec<u64> = u.vals.iter().map(|v| v.to_bits()).collect();
+                // acceptance draws: the sequence over the steps of the run, per chain, pairwise distinct
+                {
+                    let us = acceptance_sequences(&ev, nc);
                     if let Some((i, j)) = first_pair_equal(&us) {
-                        o.violate("same_acceptance_stream", &format!("HMC[{how}]:chains-share-acceptance-draw"), format!("chains {i} and {j} received the same acceptance draw"));
+                        o.violate("same_acceptance_stream", &format!("HMC[{how}]:chains-share-acceptance-draw"), format!("chains {i} and {j} received the same acceptance draws in every step"));
                     }
                 }
             }
